@@ -3,6 +3,7 @@ package main
 // Evaluation of contract expressions in a symbolic state.
 
 import (
+	"strconv"
 	"fmt"
 	"go/token"
 	"go/types"
@@ -30,6 +31,7 @@ type Env struct {
 	loop          *loopInfo // loop whose invariant is being evaluated
 	inOld         bool
 	wantAddr      bool // lookupLocal returns the address of a heap local instead of its value
+	scopeTolerant bool // a name that is not in scope raises notInScope (caught by atCallChecks) instead of unsupported
 	live          *Env // the environment outside old()
 	paramsAtEntry bool                 // in ensures: parameter names denote entry values, other locals their final values
 	fvOverride  map[string]freeVarInfo // free variables of a callee closure, bound at a call / go site
@@ -105,6 +107,17 @@ func (u *Unit) envFor(fr *Frame, st, old *State, results []Val) *Env {
 		}
 	}
 	return env
+}
+
+// notInScope: a contract expression names a local variable that does not exist
+// (yet) at the point where it is evaluated.
+type notInScope struct{ msg string }
+
+func (e *Env) outOfScope(msg string) {
+	if e.scopeTolerant {
+		panic(notInScope{"contract expression: " + msg})
+	}
+	panic(unsupported{"contract expression: " + msg})
 }
 
 func (e *Env) fail(f string, a ...any) {
@@ -267,6 +280,18 @@ func (e *Env) eval(x Expr) tv {
 				return tv{mk(t.Sort, "bvnot", t), r.t}
 			}
 			e.fail("^ on mathematical integer")
+		case "&":
+			// &x: the address of a local variable that lives on the heap
+			if id, isId := x.X.(*EIdent); isId && e.fr != nil {
+				sub := *e
+				sub.wantAddr = true
+				if r, ok := sub.lookupLocalQuiet(id.Name); ok {
+					if p, isT := r.v.(*Term); isT && p.Sort == SPtr {
+						return r
+					}
+				}
+			}
+			e.outOfScope("&" + exprString(x.X) + ": not a heap-allocated local variable in scope")
 		case "*":
 			r := e.eval(x.X)
 			p, ok := r.v.(*Term)
@@ -406,7 +431,7 @@ func (e *Env) ident(name string) tv {
 	if sf, ok := u.prog.specs.SpecFns[name]; ok && len(sf.Params) == 0 {
 		return e.specCall(sf, nil)
 	}
-	e.fail("unknown name %q", name)
+	e.outOfScope("unknown name " + strconv.Quote(name))
 	return tv{}
 }
 
@@ -755,10 +780,12 @@ func (e *Env) index(x *EIdx) tv {
 		return tv{u.strAt(e.st, s, i), types.Typ[types.Uint8]}
 	case SRef:
 		if mt, ok := types.Unalias(base.t).Underlying().(*types.Map); ok {
-			_, val, _, ks, vs := u.mapNames(mt)
+			// m[k] as in Go: the zero value when k is not in the map
+			dom, val, _, ks, vs := u.mapNames(mt)
 			k := u.evalTerm(e, x.I)
 			vv := u.mapGet(e.st, val, ArrSort(SRef, ArrSort(ks, vs)))
-			return tv{Select(Select(vv, s), k), mt.Elem()}
+			d := u.mapGet(e.st, dom, ArrSort(SRef, ArrSort(ks, SBool)))
+			return tv{Ite(Select(Select(d, s), k), Select(Select(vv, s), k), u.zeroOfSort(vs)), mt.Elem()}
 		}
 	}
 	if strings.HasPrefix(string(s.Sort), "(Array ") {
@@ -1086,6 +1113,14 @@ func (e *Env) methodCall(x *ECall) tv {
 		e.fail("method %s not found on %s", x.Fn, recv.t)
 	}
 	args := []Val{recv.v}
+	if pe := ptrElem(t); pe != nil && strings.HasPrefix(key, "("+namedKey(pe)+")") {
+		// value-receiver method called through a pointer: the receiver is the pointee
+		if p, isT := recv.v.(*Term); isT && p.Sort == SPtr {
+			if _, isStruct := u.structOf(pe); isStruct {
+				args[0] = u.loadVal(e.st, pe, p)
+			}
+		}
+	}
 	for _, a := range x.Args {
 		args = append(args, e.eval(a).v)
 	}
@@ -1097,13 +1132,22 @@ func (e *Env) methodCall(x *ECall) tv {
 	if ct.Flags["function"] != "" {
 		var as []*Term
 		var sorts []Sort
-		for _, a := range args {
-			t, ok := a.(*Term)
-			if !ok {
+		var flat func(a Val)
+		flat = func(a Val) {
+			switch v := a.(type) {
+			case *Term:
+				as = append(as, v)
+				sorts = append(sorts, v.Sort)
+			case *StructVal:
+				for _, f := range v.Fields {
+					flat(f)
+				}
+			default:
 				e.fail("method %s: scalar arguments expected", x.Fn)
 			}
-			as = append(as, t)
-			sorts = append(sorts, t.Sort)
+		}
+		for _, a := range args {
+			flat(a)
 		}
 		rsort, _ := u.sortOf(rt)
 		f := u.ctx.Func("fn!"+key, sorts, rsort)
@@ -1241,6 +1285,13 @@ func (u *Unit) resolveType(s string, pkgPath string) (types.Type, Sort) {
 			_, b := u.resolveType(parts[1], pkgPath)
 			return nil, ArrSort(a, b)
 		}
+	}
+	if s == "recvtype" && u.fn != nil && u.fn.Signature.Recv() != nil {
+		// the type of the unit's receiver, as written (names a generic receiver
+		// type such as *Cache[T], which has no spelling outside its declaration)
+		t := u.fn.Signature.Recv().Type()
+		sort, _ := u.sortOf(t)
+		return t, sort
 	}
 	t := u.prog.parseType(s, pkgPath)
 	if t == nil {
